@@ -1454,3 +1454,11 @@ package server
 //@   at call ProcessLockResultCommand#1 assert C10.probable.same-rule: arg2 == protocol.RESULT_TIMEOUT && command.Flag&0x08 != 0 && command.Timeout == 0 && (lockManager == nil || lockManager.locked == 0) && command.TimeoutFlag&0x0200 != 0
 //@   ensures C10.probable.once: calls(ProcessLockResultCommand) == ite(result, 1, 0)
 //@   modifies all
+
+// C09: a full transfer sends, from the files, exactly the records strictly before the position the live stream will
+// continue from (the record at that position comes with the stream: sent twice it is replayed twice)
+//@ func (*ReplicationServer).sendFiles$1
+//@   requires lock != nil
+//@   at call WriteBytes assert C09.files.before-boundary: lock.AofIndex < self.waofLock.AofIndex || (lock.AofIndex == self.waofLock.AofIndex && lock.AofOffset < self.waofLock.AofOffset)
+//@   at call WriteBytes#1 assert C09.files.record: arg1 == lock.buf
+//@   modifies all
